@@ -31,6 +31,8 @@ type pushState struct {
 type pushHandler struct {
 	hs      *hashSite
 	readAll *ssa.Call
+	// readUnknown: the bytes could not be followed to the read of the request body (only the bounded-read clause depends on it)
+	readUnknown bool
 	// viaHelper: the body is read by a helper of the server package (call in the handler); its non-nil byte results are
 	// within the limit by the helper's own check; argOf maps the helper's parameters to the handler's arguments
 	viaHelper *ssa.Call
@@ -157,30 +159,37 @@ func findPushHandler(c *core.Ctx) *pushHandler {
 					}
 				}
 			}
-			if ra == nil || readerArg == nil {
-				continue
-			}
 			ph := &pushHandler{hs: hs, readAll: ra, viaHelper: viaHelper, preLimit: preLimit, parsed: map[*ssa.Alloc]string{}, unmarshal: map[*ssa.Call]*ssa.Alloc{}, verifiers: map[*ssa.Call]string{}, insert: hs.inserts[0]}
-			// the reader
-			src := an.Origin(readerArg)
-			isBody := func(v ssa.Value) bool {
-				v = ph.callerValue(v)
-				_, p := accessPath(an.Origin(v))
-				return len(p) > 0 && p[len(p)-1] == "Body"
-			}
-			if rc, _ := an.CallOf(src); rc != nil && (an.IsFunc(rc, "io", "LimitReader") || an.IsFunc(rc, "net/http", "MaxBytesReader")) {
-				ph.reader = rc
-				bodyArg := rc.Call.Args[0]
-				if an.IsFunc(rc, "net/http", "MaxBytesReader") {
-					bodyArg = rc.Call.Args[1]
-				}
-				if !isBody(bodyArg) {
+			if ra == nil || readerArg == nil {
+				// the handler is the one that hashes bytes and enters the digest into the index of the repository the request names;
+				// how it came by the bytes could not be followed (a record handed out by a reading step, say): everything but
+				// the bounded-read clause is still judged, that clause is reported as undecided
+				if !reachesRequestBody(hs.fn) {
 					continue
 				}
-			} else if isBody(src) {
-				ph.unbounded = true
+				ph.readAll, ph.readUnknown = nil, true
 			} else {
-				continue
+				// the reader
+				src := an.Origin(readerArg)
+				isBody := func(v ssa.Value) bool {
+					v = ph.callerValue(v)
+					_, p := accessPath(an.Origin(v))
+					return len(p) > 0 && p[len(p)-1] == "Body"
+				}
+				if rc, _ := an.CallOf(src); rc != nil && (an.IsFunc(rc, "io", "LimitReader") || an.IsFunc(rc, "net/http", "MaxBytesReader")) {
+					ph.reader = rc
+					bodyArg := rc.Call.Args[0]
+					if an.IsFunc(rc, "net/http", "MaxBytesReader") {
+						bodyArg = rc.Call.Args[1]
+					}
+					if !isBody(bodyArg) {
+						continue
+					}
+				} else if isBody(src) {
+					ph.unbounded = true
+				} else {
+					continue
+				}
 			}
 			recv, _ := an.CallArgs(ph.insert)
 			ph.repo = an.Origin(recv)
@@ -311,6 +320,39 @@ func collectPushSubs(c *core.Ctx, r *Roles, ph *pushHandler) {
 		}
 		ph.subs = append(ph.subs, &pushSub{call: cc, view: view})
 	})
+}
+
+// reachesRequestBody: fn (a handler closure) or a function of its package it calls reads the Body field of a request.
+func reachesRequestBody(fn *ssa.Function) bool {
+	seen := map[*ssa.Function]bool{}
+	var walk func(f *ssa.Function, d int) bool
+	walk = func(f *ssa.Function, d int) bool {
+		if f == nil || seen[f] || d > 2 || len(f.Blocks) == 0 {
+			return false
+		}
+		seen[f] = true
+		found := false
+		an.Instrs(f, func(in ssa.Instruction) {
+			if fa, ok := in.(*ssa.FieldAddr); ok {
+				if n := an.NamedOf(an.Deref(fa.X.Type())); n != nil && n.Obj().Name() == "Request" && n.Obj().Pkg() != nil && n.Obj().Pkg().Path() == "net/http" {
+					if st, ok := n.Underlying().(*types.Struct); ok && st.Field(fa.Field).Name() == "Body" {
+						found = true
+					}
+				}
+			}
+		})
+		if found {
+			return true
+		}
+		hit := false
+		an.Calls(f, func(call ssa.CallInstruction) {
+			if h := call.Common().StaticCallee(); h != nil && core.FuncPkgPath(h) == core.FuncPkgPath(fn) && walk(h, d+1) {
+				hit = true
+			}
+		})
+		return hit
+	}
+	return walk(fn, 0)
 }
 
 // definitelyNonEmpty: the slice is a literal with at least one element.
@@ -477,6 +519,14 @@ func pushEdgeCore(r *Roles, ph *pushHandler, readErr ssa.Value, maxBytes bool, l
 				}
 			}
 		}
+		// the comparison made by a predicate of the package (sameKind(declared, detected)): its accepting edge
+		if pc, trueSucc, ok := an.BoolCallTest(ifi); ok && succ == trueSucc {
+			if di, bi, isP := mtPredicate(pc.Call.StaticCallee()); isP && len(pc.Call.Args) == 2 {
+				if ph.declaredDerived(r, pc.Call.Args[di], 0) && ph.bodyDerived(r, pc.Call.Args[bi], 0) && ph.detectorDerived(r, pc.Call.Args[bi]) {
+					s.bits |= bMTCmp
+				}
+			}
+		}
 		if x, y, op, ok := an.CmpTest(ifi); ok {
 			// media type comparison
 			for _, pair := range [][2]ssa.Value{{x, y}, {y, x}} {
@@ -528,6 +578,81 @@ func pushEdgeCore(r *Roles, ph *pushHandler, readErr ssa.Value, maxBytes bool, l
 		}
 	}
 	return s
+}
+
+// mtPredicate: h(a, b string) bool answers true only when one parameter (the detected type) is empty — nothing to compare —
+// or when the same classification predicate gives the same answer for both parameters.  Returns the index of the
+// declared and of the detected parameter.
+func mtPredicate(h *ssa.Function) (declIdx, bodyIdx int, ok bool) {
+	if h == nil || len(h.Blocks) == 0 || len(h.Params) != 2 || h.Signature.Results().Len() != 1 {
+		return 0, 0, false
+	}
+	paramIdx := func(v ssa.Value) int {
+		for i, p := range h.Params {
+			if an.Origin(v) == ssa.Value(p) {
+				return i
+			}
+		}
+		return -1
+	}
+	bodyIdx = -1
+	cmpSeen := false
+	good := true
+	an.Instrs(h, func(in ssa.Instruction) {
+		ret, isRet := in.(*ssa.Return)
+		if !isRet || len(ret.Results) != 1 {
+			return
+		}
+		for _, o := range append([]ssa.Value{an.Strip(ret.Results[0])}, an.Origins(ret.Results[0])...) {
+			if _, isPhi := o.(*ssa.Phi); isPhi {
+				continue
+			}
+			if k, isC := an.ConstBool(o); isC {
+				if !k {
+					continue
+				}
+				// `return true` only on the ‘detected type is empty’ edge
+				found := false
+				for _, g := range an.GuardingEdges(ret.Block()) {
+					x, y, op, isCmp := an.CmpTest(g.If())
+					if !isCmp {
+						continue
+					}
+					if s0, isS := an.ConstString(y); isS && s0 == "" && ((op == token.EQL && g.Succ == 0) || (op == token.NEQ && g.Succ == 1)) {
+						if i := paramIdx(x); i >= 0 && (bodyIdx < 0 || bodyIdx == i) {
+							bodyIdx = i
+							found = true
+						}
+					}
+				}
+				if !found {
+					good = false
+				}
+				continue
+			}
+			bo, isBin := o.(*ssa.BinOp)
+			if !isBin || bo.Op != token.EQL {
+				good = false
+				continue
+			}
+			cx, _ := an.CallOf(an.Strip(bo.X))
+			cy, _ := an.CallOf(an.Strip(bo.Y))
+			if cx == nil || cy == nil || cx.Call.StaticCallee() == nil || cx.Call.StaticCallee() != cy.Call.StaticCallee() || len(cx.Call.Args) != 1 || len(cy.Call.Args) != 1 {
+				good = false
+				continue
+			}
+			i, j := paramIdx(cx.Call.Args[0]), paramIdx(cy.Call.Args[0])
+			if i < 0 || j < 0 || i == j {
+				good = false
+				continue
+			}
+			cmpSeen = true
+		}
+	})
+	if !good || !cmpSeen || bodyIdx < 0 {
+		return 0, 0, false
+	}
+	return 1 - bodyIdx, bodyIdx, true
 }
 
 // subSummary: the facts that hold on every return of the sub-handler that can hand out an empty list at result idx
@@ -598,7 +723,10 @@ func analysePush(c *core.Ctx, r *Roles, ph *pushHandler) map[string][2]string {
 		x := lenOf(v)
 		return x != nil && an.Origin(x) == ph.hs.bytes
 	}
-	readErr := an.ErrResult(ph.readAll)
+	var readErr ssa.Value
+	if ph.readAll != nil {
+		readErr = an.ErrResult(ph.readAll)
+	}
 	maxBytes := ph.reader != nil && an.IsFunc(ph.reader, "net/http", "MaxBytesReader")
 	subSum := map[[2]int][2]uint32{} // (sub index, result index) -> (bits, 1 when some return can hand out an empty list)
 	edge := func(s pushState, from *ssa.BasicBlock, succ int) (pushState, bool) {
@@ -739,6 +867,8 @@ func analysePush(c *core.Ctx, r *Roles, ph *pushHandler) map[string][2]string {
 	}
 	// TS-BOUNDREAD
 	switch {
+	case ph.readUnknown:
+		put("TS-BOUNDREAD", "read:"+name, "the way the push handler comes by the request body (the bytes hashed at "+c.P.Pos(ph.hs.from.Pos())+") could not be followed to a read of r.Body: the bound of the read is not decided", "")
 	case ph.unbounded:
 		put("TS-BOUNDREAD", "read:"+name, fmt.Sprintf("the manifest body is read without a bound at %s", c.P.Pos(ph.readAll.Pos())), "")
 	case maxBytes:
@@ -958,12 +1088,29 @@ func verifierProblem(c *core.Ctx, r *Roles, v *ssa.Function) string {
 		// the prober's own shape
 		ri, si, elemField := -1, -1, ""
 		var inner *ssa.Call
+		innerBool := false
 		an.Calls(h, func(c2 ssa.CallInstruction) {
 			ic, ok := c2.(*ssa.Call)
-			if !ok || !r.IsAPI(c2, "Repo", "BlobGet") {
+			if !ok {
 				return
 			}
-			recv, args := an.CallArgs(c2)
+			var recv ssa.Value
+			var args []ssa.Value
+			if r.IsAPI(c2, "Repo", "BlobGet") {
+				recv, args = an.CallArgs(c2)
+			} else if hh := ic.Call.StaticCallee(); hh != nil && hh != h {
+				// the probe made through an ‘exists’ helper of the package
+				ri2, di2, _, okH := helperExists(hh)
+				if !okH || ri2 >= len(ic.Call.Args) || di2 >= len(ic.Call.Args) {
+					return
+				}
+				recv, args = ic.Call.Args[ri2], []ssa.Value{ic.Call.Args[di2]}
+				if bt, isB := ic.Type().Underlying().(*types.Basic); isB && bt.Kind() == types.Bool {
+					innerBool = true
+				}
+			} else {
+				return
+			}
 			if len(args) != 1 {
 				return
 			}
@@ -988,7 +1135,19 @@ func verifierProblem(c *core.Ctx, r *Roles, v *ssa.Function) string {
 		rec := false
 		for _, b := range h.Blocks {
 			if ifi := an.BlockIf(b); ifi != nil {
-				if x, nilSucc, ok := an.NilTest(ifi); ok && x == ierr && recordedFrom(b.Succs[1-nilSucc]) {
+				if innerBool {
+					if base, neg := an.CondBase(ifi.Cond); base == ssa.Value(inner) {
+						miss := 1
+						if neg {
+							miss = 0
+						}
+						if recordedFrom(b.Succs[miss]) {
+							rec = true
+						}
+					}
+					continue
+				}
+				if x, nilSucc, ok := an.NilTest(ifi); ok && ierr != nil && x == ierr && recordedFrom(b.Succs[1-nilSucc]) {
 					rec = true
 				}
 			}
@@ -997,6 +1156,10 @@ func verifierProblem(c *core.Ctx, r *Roles, v *ssa.Function) string {
 			return
 		}
 		listProbers[cc] = true
+		// the list is a field of the manifest itself (verifyDescs(repo, m.Layers, …)): every element of it is probed
+		if root, pth := deepAccessPath(an.Strip(cc.Call.Args[si])); root == ssa.Value(structParam) && len(pth) == 1 && need[pth[0]] == "many" && elemField == "Digest" {
+			have[pth[0]] = true
+		}
 		// what the verifier put into the list: the elements of every append that flows into the argument
 		seen := map[ssa.Value]bool{}
 		var back func(x ssa.Value, d int)
@@ -1183,6 +1346,10 @@ func listReturnOK(v *ssa.Function, acceptCall func(*ssa.Call) bool) bool {
 			switch y := x.(type) {
 			case *ssa.Const:
 				return y.Value == nil
+			case *ssa.Parameter:
+				// a list of failures handed in and extended: whatever was in it stays in it
+				_, isSlice := y.Type().Underlying().(*types.Slice)
+				return isSlice
 			case *ssa.Phi:
 				for _, e := range y.Edges {
 					if !fromList(e, d+1) {
@@ -1273,9 +1440,22 @@ func runRefTag(c *core.Ctx) {
 					}
 				}
 				if structVal != nil {
-					if stt, ok := structVal.Type().Underlying().(*types.Struct); ok && fieldIdx < stt.NumFields() {
+					// fieldOf: the field of a record value — handed out by a parsing helper (judged at the helper's returns), or the
+					// receiver / a parameter of a builder (then what every call of the builder passes)
+					var fieldOf func(sv ssa.Value, d2 int) bool
+					fieldOf = func(sv ssa.Value, d2 int) bool {
+						stt, ok := sv.Type().Underlying().(*types.Struct)
+						if !ok || fieldIdx >= stt.NumFields() || d2 > 3 {
+							return false
+						}
+						// kept in a local variable assigned once as a whole
+						if u, isLoad := an.Strip(sv).(*ssa.UnOp); isLoad && u.Op == token.MUL {
+							if whole := an.SingleStore(u.X); whole != nil && !fieldWritten(u.X, fieldIdx) {
+								sv = whole
+							}
+						}
 						fname := stt.Field(fieldIdx).Name()
-						if hr := an.HelperReturns(structVal, func(h *ssa.Function) bool { return core.FuncPkgPath(h) == c.P.Module }); len(hr) > 0 {
+						if hr := an.HelperReturns(sv, func(h *ssa.Function) bool { return core.FuncPkgPath(h) == c.P.Module }); len(hr) > 0 {
 							for _, x := range hr {
 								ss := structStores(an.Origin(x.Val))
 								if len(ss) == 0 {
@@ -1287,8 +1467,30 @@ func runRefTag(c *core.Ctx) {
 									check(val, x.Ret.Block(), depth+1)
 								}
 							}
-							return
+							return true
 						}
+						if p, isParam := an.Origin(sv).(*ssa.Parameter); isParam && core.FuncPkgPath(p.Parent()) == c.P.Module {
+							pf := p.Parent()
+							sites := c.P.Callers(pf)
+							if len(sites) == 0 {
+								return false
+							}
+							for i, q := range pf.Params {
+								if q != p {
+									continue
+								}
+								for _, site := range sites {
+									if site.Common().StaticCallee() != pf || i >= len(site.Common().Args) || !fieldOf(site.Common().Args[i], d2+1) {
+										okAll, msg = false, "the record the tag is taken from could not be traced at "+c.P.Pos(site.Pos())
+									}
+								}
+							}
+							return true
+						}
+						return false
+					}
+					if fieldOf(structVal, 0) {
+						return
 					}
 				}
 				// a string result of a parsing helper of the module (tag, digest, err := parseRef(arg)): whatever a return
@@ -1313,6 +1515,27 @@ func runRefTag(c *core.Ctx) {
 						continue
 					}
 					if an.Origin(call.Call.Args[1]) == o {
+						return
+					}
+				}
+				// a parameter of a builder of the module (manifestDesc(mt, d, size, tag)): what every call of it passes, judged at
+				// the place of the call
+				if p, isParam := an.Origin(v).(*ssa.Parameter); isParam && p.Parent() != ph.hs.fn && core.FuncPkgPath(p.Parent()) == c.P.Module && structVal == nil {
+					pf := p.Parent()
+					sites := c.P.Callers(pf)
+					if len(sites) > 0 {
+						for i, q := range pf.Params {
+							if q != p {
+								continue
+							}
+							for _, site := range sites {
+								if site.Common().StaticCallee() != pf || i >= len(site.Common().Args) {
+									okAll, msg = false, "a call of the builder could not be resolved at "+c.P.Pos(site.Pos())
+									continue
+								}
+								check(site.Common().Args[i], site.Block(), depth+1)
+							}
+						}
 						return
 					}
 				}
